@@ -63,8 +63,8 @@ vnacal_t *_vnacal_alloc(const char *function,
 	vnacal_free(vcp);
 	return NULL;
     }
-    vcp->vc_fprecision = VNACAL_DEFAULT_DATA_PRECISION;
-    vcp->vc_dprecision = VNACAL_DEFAULT_FREQUENCY_PRECISION;
+    vcp->vc_fprecision = VNACAL_DEFAULT_FREQUENCY_PRECISION;
+    vcp->vc_dprecision = VNACAL_DEFAULT_DATA_PRECISION;
     vcp->vc_new_head.l_forw = &vcp->vc_new_head;
     vcp->vc_new_head.l_back = &vcp->vc_new_head;
 
